@@ -11,7 +11,9 @@ CheckQuant(r) == DecodesOK(r) /\ ((r.eok /\ r.dok /\ r.n > 0) =>
     /\ r.nonfinite = 0
     /\ r.worst_err_u <= r.half_u + r.allow_u          \* at most half a step (+ float32 allowance)
     /\ r.worst_box_u <= r.allow_u                     \* never leaves the box by more than the allowance
-    /\ r.bits_ok)
+    /\ r.bits_ok
+    /\ r.worst_desc_u <= r.half_u + r.allow_u        \* the integers of the skip-transform view under the parameters the attribute describes itself with
+    )
 \* inputs with L1 norm <= 1e-6 are reported separately (tiny_inputs / worst_angle_tiny_u) so that they can be classified
 CheckNormal(r) == (r.eok => r.dok) /\ ((r.eok /\ r.dok /\ r.n > 0) =>
     /\ r.nonfinite = 0
